@@ -438,6 +438,76 @@ def o6(tier):
     return ob.done(cases=total)
 
 
+SWEEP_CONTRACT = ('OpenMLS 0.8: MlsGroup::{add_members, remove_members, update_group_context_extensions, self_update, self_update_with_new_signer, '
+                  'commit_to_pending_proposals} build their commit with CommitBuilder::consume_proposal_store(true) (the default): every proposal '
+                  'in the group\'s proposal store is committed together with the operation (read from openmls-0.8.1 src/group/mls_group/{updates,processing,commit_builder}.rs)')
+
+
+@guard
+def o7(tier):
+    """an admin's own operation changes exactly what it names: it must not carry out roster changes merely proposed by someone else"""
+    ob = Ob('O7', 'sender side: no add_members / remove_members / update_group_data / self_update commits roster changes that another member merely proposed: either process_proposal never '
+                  'puts a foreign Add/Remove proposal into the OpenMLS proposal store, or the operation empties the store (clear_pending_proposals) before it builds its commit',
+            pure=C.PURE_MLS | {'QueuedProposal::sender', 'QueuedProposal::proposal'}, inline={'store_pending_proposal', 'mark_processed', 'auto_commit_proposal'}, loop_bound=4)
+    ob.r.assumptions.append(SWEEP_CONTRACT)
+    # (a) does the receive side queue roster changes proposed by somebody else?
+    f = ob.fn(VALID, 'proposal::process_proposal')
+    args = [Opaque('self', '&MDK<Storage>'), Opaque('mls_group', '&mut openmls::group::MlsGroup'), Opaque('event', '&nostr::Event'),
+            Opaque('staged_proposal', 'openmls::group::QueuedProposal')]
+    kinds = ob.prog.cat.variants('Proposal', 'openmls::messages::proposals')
+    kind_d = z3.BitVec('*QueuedProposal::proposal(staged_proposal)#d', 64)
+    foreign = []
+    total = 0
+    for p in ob.explore(f, args):
+        total += 1
+        if p.kind != 'return' or not [e for e in p.trace if ev_is(e, 'MlsGroup::store_pending_proposal') or (ev_is(e, 'store_pending_proposal') and 'openmls' in e.fn)]:
+            continue
+        if ob.eng.prove(p, kind_d == kinds.index('Add'))[0]:
+            foreign.append('Add')
+        elif ob.eng.prove(p, kind_d == kinds.index('Remove'))[0]:
+            eqs = [c for c in p.pc if 'RemoveProposal::removed' in str(c) and 'eq(' in str(c)]
+            if any(str(c).startswith('Not(') for c in eqs):
+                foreign.append('Remove of another member')
+    ob.r.vacuity.append(f'process_proposal queues into the OpenMLS proposal store: {sorted(set(foreign)) or "nothing foreign"}')
+    # the one automatic case (an admin committing a member's own leave) commits the whole store as well
+    for p in ob.explore(f, args):
+        if p.kind != 'return':
+            continue
+        cm = [(i, e) for i, e in enumerate(p.trace) if ev_is(e, 'commit_to_pending_proposals')]
+        if cm:
+            cleared = [e for e in p.trace[:cm[0][0]] if ev_is(e, 'clear_pending_proposals')]
+            ob.require(bool(cleared) or not foreign, 'O7/fn=auto_commit_proposal/sweeps-pending-proposals',
+                       f'auto-commit of a member\'s leave uses commit_to_pending_proposals while the store may hold {sorted(set(foreign))} proposals of OTHER members queued earlier: they are committed with it', p)
+    # (b) every sender-side operation whose OpenMLS call consumes the proposal store
+    ob.new_engine(pure=C.PURE_MLS, loop_bound=4)
+    specs = [('groups::add_members', ['&MDK<Storage>', '&mdk_storage_traits::GroupId', '&[nostr::Event]'], ('add_members',)),
+             ('groups::remove_members', ['&MDK<Storage>', '&mdk_storage_traits::GroupId', '&[nostr::key::PublicKey]'], ('remove_members',)),
+             ('groups::update_group_data_extension', ['&MDK<Storage>', '&mut openmls::group::MlsGroup', '&mdk_storage_traits::GroupId', '&NostrGroupDataExtension'], ('update_group_context_extensions',)),
+             ('groups::self_update', ['&MDK<Storage>', '&mdk_storage_traits::GroupId'], ('MlsGroup::self_update', 'self_update_with_new_signer'))]
+    hits = 0
+    for spec, tys, muts in specs:
+        fn = ob.fn(VALID, spec)
+        for p in ob.explore(fn, [Opaque(f'a{i}', t) for i, t in enumerate(tys)]):
+            total += 1
+            if p.kind == 'panic':
+                continue
+            ms = [(i, e) for i, e in enumerate(p.trace) if ev_is(e, *muts) and 'openmls' in e.fn]
+            if not ms:
+                continue
+            hits += 1
+            i0 = ms[0][0]
+            cleared = [e for e in p.trace[:i0] if ev_is(e, 'clear_pending_proposals')]
+            ob.require(bool(cleared) or not foreign, f'O7/fn={fn.short}/sweeps-pending-proposals',
+                       f'{fn.short}: builds its commit with {ms[0][1].short} while the proposal store may hold {sorted(set(foreign))} proposals queued by process_proposal from OTHER members '
+                       '("pending for admin approval"): OpenMLS commits them together with the operation, so the admin carries out roster changes it did not name', p)
+    ob.require(hits >= 4, 'O7/vacuity', f'operations reaching their OpenMLS commit call: {hits}')
+    ob.r.bounds = {'paths': 'all', 'loops over key packages / members': 'unrolled to 2 elements'}
+    r = ob.done(cases=total)
+    from vlib import scen
+    scen.confirm(r, 'O7/fn=update_group_data_extension/sweeps-pending-proposals', 'c05', 'c05_admin_rename_does_not_carry_out_a_foreign_remove_proposal')
+    return r
+
+
 def run(tier, seed, only=None):
-    obs = [('O1', o1), ('O2', o2), ('O3', o3), ('O4', o4), ('O5', o5), ('O6', o6)]
+    obs = [('O1', o1), ('O2', o2), ('O3', o3), ('O4', o4), ('O5', o5), ('O6', o6), ('O7', o7)]
     return [f(tier) for k, f in obs if not only or k in only]
